@@ -838,6 +838,23 @@ def op_unary(st, o):
     return o["f"]
 
 
+def _operand_state(*hs):
+    """Validity, labels and mapping of the operand fields as the library holds them BEFORE an evaluation."""
+    return [(h, np.array(h.obj.valid, copy=True), None if h.obj.vdims is None else list(h.obj.vdims), dict(h.obj.vdim_mapping or {})) for h in hs if h is not None]
+
+
+def _operands_untouched(st, snap, what):
+    """C03: evaluation leaves every operand's validity, labels and mapping unmodified (values and mesh are
+    compared by the whole-heap pass after the step)."""
+    for h, v, vd, mp in snap:
+        now = np.asarray(h.obj.valid)
+        if now.shape != v.shape or not np.array_equal(now, v):
+            raise Violation("operand.modified", f"{what}: the validity of operand handle {h.slot if hasattr(h, 'slot') else '?'} changed ({int(v.sum())} valid cells before, {int(now.sum())} after)", preds=["validity"], kind="A")
+        if (None if h.obj.vdims is None else list(h.obj.vdims)) != vd or dict(h.obj.vdim_mapping or {}) != mp:
+            raise Violation("operand.modified", f"{what}: labels/mapping of an operand changed: {vd}/{mp} -> {h.obj.vdims}/{dict(h.obj.vdim_mapping or {})}", preds=["labels"], kind="A")
+    st.stats.oracle("A")
+
+
 @op("A.binary")
 def op_binary(st, o):
     ha = st.h[o["a"]]
@@ -867,11 +884,13 @@ def op_binary(st, o):
             arr = npf(barr, ha.fm.array) if o.get("reflected") else npf(ha.fm.array, barr)
     except (ValueError, TypeError, ZeroDivisionError):
         return "skipped"  # numpy itself refuses this combination (e.g. int ** negative int)
+    snap = _operand_state(ha, hb)
     if o.get("reflected"):
         res = sut(lambda: libf(bobj, ha.obj))
     else:
         res = sut(lambda: libf(ha.obj, bobj))
     obj = expect_ok(res, f"field {o['f']} {_short_spec(o['b'])} (reflected={bool(o.get('reflected'))})", preds=[o["f"]])
+    _operands_untouched(st, snap, f"field {o['f']} {_short_spec(o['b'])}")
     valid = ha.fm.valid & bvalid if bvalid is not None else ha.fm.valid.copy()
     if hb is not None and o["a"] == o["b"]:
         st.stats.probe("same_operand_twice")
@@ -914,8 +933,10 @@ def op_vecop(st, o):
         with np.errstate(all="ignore"):
             arr = np.arccos((a * b).sum(axis=-1, keepdims=True) / (np.sqrt((a * a).sum(axis=-1, keepdims=True)) * np.sqrt((b * b).sum(axis=-1, keepdims=True))))
         inexact = True
+    snap = _operand_state(ha, hb)
     res = sut(call)
     obj = expect_ok(res, f"field.{f}({_short_spec(o['b'])})", preds=[f])
+    _operands_untouched(st, snap, f"field.{f}({_short_spec(o['b'])})")
     valid = ha.fm.valid & bvalid if bvalid is not None else ha.fm.valid.copy()
     if f == "dot" and "array" in st.predict:
         got = np.asarray(obj.array)
